@@ -244,7 +244,12 @@ func Explore(t *testing.T, p *PropDef, seed uint64, tier string, keepLog bool, j
 // ReplayTrace executes a recorded trace.
 func ReplayTrace(t *testing.T, p *PropDef, tr *Trace, keepLog bool) (*RunCtx, *Violation) {
 	if tr.Mode == "generate" {
-		return Explore(t, p, tr.Seed, tr.Tier, keepLog, nil)
+		var j *os.File
+		if path := os.Getenv("VERIF_JOURNAL"); path != "" {
+			// steps are written before they are executed, so a fatal crash or hang can be attributed
+			j, _ = os.Create(path)
+		}
+		return Explore(t, p, tr.Seed, tr.Tier, keepLog, j)
 	}
 	cfg := map[string]int{}
 	for k, v := range tr.Cfg {
